@@ -178,25 +178,25 @@ pub fn recv(name: &'static str, shape: Shape) -> RecvDesc {
     RecvDesc { name, shape, allow_unknown: false, container_default: None, container_post: None, from_word: None, from_none: None }
 }
 
-fn pm(s: u32) -> Ty {
+pub fn pm(s: u32) -> Ty {
     Ty::PM(s)
 }
-fn ph(s: u32) -> Ty {
+pub fn ph(s: u32) -> Ty {
     Ty::PH(s)
 }
-fn opt(t: Ty) -> Ty {
+pub fn opt(t: Ty) -> Ty {
     Ty::Opt(Box::new(t))
 }
-fn bx(t: Ty) -> Ty {
+pub fn bx(t: Ty) -> Ty {
     Ty::Boxed(Box::new(t))
 }
-fn r(n: &'static str) -> Ty {
+pub fn r(n: &'static str) -> Ty {
     Ty::Recv(n)
 }
-fn hmap(key: KeyKind, val: Ty) -> Ty {
+pub fn hmap(key: KeyKind, val: Ty) -> Ty {
     Ty::Map { key, val: Box::new(val), btree: false }
 }
-fn bmap(key: KeyKind, val: Ty) -> Ty {
+pub fn bmap(key: KeyKind, val: Ty) -> Ty {
     Ty::Map { key, val: Box::new(val), btree: true }
 }
 
@@ -405,6 +405,10 @@ pub fn meta_receivers() -> BTreeMap<&'static str, RecvDesc> {
             add(recv(b, Alias(bmap(key, val))));
         }
     }
+    crate::gen_schema::add_meta(&mut m);
+    let mut add = |d: RecvDesc| {
+        m.insert(d.name, d);
+    };
     add(recv("RHN", Alias(hmap(KeyKind::Str, hmap(KeyKind::Str, pm(2704))))));
     add(recv("RBN", Alias(bmap(KeyKind::Str, bmap(KeyKind::Str, pm(2704))))));
     m
@@ -555,7 +559,7 @@ pub fn elems() -> &'static BTreeMap<&'static str, ElemDesc> {
     TABLE.get_or_init(elem_receivers)
 }
 
-fn set(named: bool, tuple: bool, newtype: bool, unit: bool) -> ShapeSetDesc {
+pub fn set(named: bool, tuple: bool, newtype: bool, unit: bool) -> ShapeSetDesc {
     ShapeSetDesc { named, tuple, newtype, unit }
 }
 
@@ -699,6 +703,10 @@ pub fn elem_receivers() -> BTreeMap<&'static str, ElemDesc> {
         ..elem("FR6", Field, vec!["a"], vec![f("p", pm(5701)), f("t", pm(5702)).dfn(5702).and_then(), f("sk", pm(5703)).skip()])
     });
     add(ElemDesc { newtype_of: Some("AT1"), ..elem("AT4", Attributes, vec![], vec![]) });
+    crate::gen_schema::add_elem(&mut m);
+    let mut add = |d: ElemDesc| {
+        m.insert(d.name, d);
+    };
     add(elem(
         "AT1",
         Attributes,
